@@ -97,6 +97,8 @@ class Run:
             v, s = bad[0]
             raise P.Inconclusive("%s failed for variant %s %s:\n%s" % (s, v.name, v.flags, v.gen_err if s == "gen" else v.build_err))
 
+        self.plans = {}
+
         def run(v):
             plan = []
             for gx, g in enumerate(v.groups):
@@ -104,7 +106,9 @@ class Run:
                     if v.optimized and (options[oi]["memo"] or options[oi]["debug"]):
                         continue
                     plan.append([gx, ii, oi])
-            return v.run(inputs, options, plan, timeout_ms=timeout_ms)
+            self.plans[v.vi] = plan
+            dbg = os.path.join(v.dir, "debug.txt") if any(options[p_[2]]["debug"] for p_ in plan) and getattr(self, "keep_debug", False) else None
+            return v.run(inputs, options, plan, timeout_ms=timeout_ms, debug_out=dbg)
         obs = P.parallel(run, variants)
         self.obs = obs
         st = dict(parses=0, matched=0, with_errors=0, no_match=0, budget=0, panic_escaped=0, with_events=0, not_ok_status=0)
@@ -125,6 +129,7 @@ class Run:
         tcase = dict(inputs=inputs, options=options, lower=lower or [[0, 0]], uclass=uclass or [[0]],
                      cmp=dict(dict(store=True, errs=True, ctx=False, norm=False), **(cmp or {})),
                      kf=getattr(self, "kf", []) or ["-"], strict=sorted(wit) or [0])
+        self.gp, self.tcase = gp, tcase
         div, tot = P.validate_t1(gp, tcase, obs, shards=shards)
         # witnesses of known findings: a divergence with the finding's symptom re-confirms it
         import findings
@@ -213,3 +218,66 @@ def pairwise(run, pairs, fields=("status", "ok", "end", "val", "errs", "nomatch"
                     div.append(dict(k=o1["k"], vi=run.variants[b].vi, gi=key[0], ii=key[1], oi=k2[2], df="pair-" + fld, at=run.variants[a].vi, haz=[]))
                     break
     return div, n
+
+
+def t2_sample(run, groups_path, tcase, max_traces=3000, asbuilt=None, eligible=None):
+    """step-level validation (T2) of the Debug traces recorded by the variants that ran with Debug(true).
+    A rejection is model drift (a note), never a verdict."""
+    import t2
+    traces = []
+    for v in run.variants:
+        dbg = os.path.join(v.dir, "debug.txt")
+        if not os.path.exists(dbg):
+            continue
+        plan = run.plans[v.vi]
+        wanted = {}
+        for k, (gx, ii, oi) in enumerate(plan):
+            g = v.groups[gx]
+            if run.options[oi]["debug"] and (eligible is None or eligible(g)):
+                wanted[k + 1] = (g.gi, ii + 1, oi + 1)
+        if len(wanted) > max_traces:
+            keys = sorted(wanted)[:: max(1, len(wanted) // max_traces)][:max_traces]
+            wanted = {k: wanted[k] for k in keys}
+        for t in t2.parse_debug(dbg, plan, v, set(wanted)):
+            gi, ii, oi = wanted[t["k"]]
+            traces.append(dict(gi=gi, ii=ii, oi=oi, ok=t["ok"], evs=t["evs"]))
+        try:
+            os.remove(dbg)
+        except OSError:
+            pass
+        if len(traces) >= max_traces:
+            break
+    tc = dict(tcase)
+    tc["asbuilt"] = asbuilt or dict(stalectx=True, memolabel=True, freehit=True, acccap=0)
+    rej, tot = t2.validate(groups_path, tc, traces[:max_traces])
+    return rej, tot
+
+
+def mc_machine(groups, inputs, options, plan, asbuilt, liveness=False, workers=16, timeout=3000):
+    """exhaustive TLC run of the design model M (PegMachine) over the cases of `plan` ([gi, ii, oi], 1-based):
+    step invariants in every state, refinement M.terminal = R at every terminal state"""
+    import tempfile
+    from peg import dump_groups
+    d = tempfile.mkdtemp(prefix="mcm-", dir=P.workdir())
+    gp = os.path.join(d, "groups.ndjson")
+    dump_groups(groups, gp)
+    tc = dict(inputs=inputs, options=options, lower=[[201, 233]], uclass=[[0]], plan=plan, asbuilt=asbuilt)
+    cfg = "SPECIFICATION Spec\nINVARIANTS PosIsPure StepChecks BudgetBound Refinement MemoFunctional\nCHECK_DEADLOCK FALSE\n"
+    if liveness:
+        cfg += "PROPERTY Termination\n"
+    r = P.run_tlc("MCMachine", cfg, {"groups.ndjson": ("path", gp), "tcase.json": ("text", json.dumps(tc))}, workers=workers, timeout=timeout, heap="24g")
+    import re
+    res = dict(cases=len(plan), states=r.get("distinct", 0), transitions=r.get("generated", 0), ok="No error has been found" in r["out"])
+    m = re.search(r"Invariant (\w+) is violated", r["out"])
+    if m:
+        res["violated"] = m.group(1)
+    if re.search(r"Temporal propert(y|ies) .*violated", r["out"]):
+        res["violated"] = "Termination"
+    if not res["ok"] and "violated" not in res:
+        i = r["out"].find("Error:")
+        raise P.Inconclusive("MCMachine did not complete:\n" + r["out"][max(i, 0):max(i, 0) + 2500])
+    res["tail"] = r["out"][-1500:] if not res["ok"] else ""
+    if not res["ok"]:
+        i = r["out"].find("Error:")
+        res["tail"] = r["out"][i:i + 3000]
+    return res
